@@ -21,7 +21,7 @@ import (
 )
 
 func init() {
-	registerEngine("W2", []string{"W2"}, runEngineW2)
+	registerEngine("W2", []string{"W2", "W3"}, runEngineW2)
 }
 
 func intInfo(t types.Type) (bits int, unsigned bool, ok bool) {
@@ -209,6 +209,7 @@ func runEngineW2(p *Prog, o *obls) {
 	for _, fn := range okFns {
 		o.ok("W2", funcKey(fn)+":width", p.Pos(fn.Pos()), fmt.Sprintf("%d site(s): shifts are done after widening (or cannot lose bits), slice sizes that are unsigned differences are ordered by a dominating comparison", looked[fn]))
 	}
+	w3Tautologies(p, o)
 	o.ok("W2", "inspected", "-", fmt.Sprintf("%d widening conversion(s) of a constant shift, %d slice size(s) that are an unsigned difference", nConv, nMake))
 }
 
@@ -217,4 +218,84 @@ func constInt64(c *ssa.Const) (int64, bool) {
 		return 0, false
 	}
 	return c.Int64(), true
+}
+
+// W3 — a guard on an unsigned number does not ask whether it is negative. `x >= 0` is true and `x < 0` false for every
+// value of an unsigned type: a test written when the operands were signed (`last+delta-65536 >= 0`, "is there an
+// earlier cycle to step back into?") keeps compiling when the fields are changed to uint64 "because they never go
+// below zero", and stops guarding — the subtraction it was meant to prevent now wraps around 2^64 and comes out as a
+// negative number after the conversion back. No comparison of the repository has an unsigned non-constant operand on
+// one side and the constant 0 on the other with an operator that makes it a tautology or a contradiction.
+func w3Tautologies(p *Prog, o *obls) {
+	per := map[*ssa.Function][]string{}
+	signedOK := map[*ssa.Function]int{}
+	n := 0
+	for _, fn := range p.Funcs {
+		if fn.Blocks == nil || !p.InUniverse(fn) {
+			continue
+		}
+		instrsOf(fn, func(in ssa.Instruction) {
+			bo, ok := in.(*ssa.BinOp)
+			if !ok {
+				return
+			}
+			x, y, op := bo.X, bo.Y, bo.Op
+			if _, isC := x.(*ssa.Const); isC {
+				x, y = y, x
+				switch op {
+				case token.LSS:
+					op = token.GTR
+				case token.GTR:
+					op = token.LSS
+				case token.LEQ:
+					op = token.GEQ
+				case token.GEQ:
+					op = token.LEQ
+				}
+			}
+			_, uns, isInt := intInfo(x.Type())
+			if !isInt || !isConstInt(y, 0) {
+				return
+			}
+			if (op == token.GEQ || op == token.LSS) && !uns {
+				signedOK[fn]++
+			}
+			if !uns {
+				return
+			}
+			if _, isC := x.(*ssa.Const); isC {
+				return
+			}
+			switch op {
+			case token.GEQ, token.LSS:
+				n++
+				what := "always true"
+				if op == token.LSS {
+					what = "always false"
+				}
+				per[fn] = append(per[fn], fmt.Sprintf("the comparison at %s of the unsigned %s with 0 is %s", p.instrPos(bo), shortExpr(p, x), what))
+			}
+		})
+	}
+	var fns []*ssa.Function
+	for fn := range per {
+		fns = append(fns, fn)
+	}
+	sort.Slice(fns, func(i, j int) bool { return funcKey(fns[i]) < funcKey(fns[j]) })
+	for _, fn := range fns {
+		ms := per[fn]
+		sort.Strings(ms)
+		o.bad("W3", funcKey(fn)+":unsigned-guard", strings.Fields(strings.SplitN(ms[0], " at ", 2)[1])[0], strings.Join(dedupe(ms), "; ")+": whatever the test was meant to exclude is no longer excluded")
+	}
+	var oks []*ssa.Function
+	for fn := range signedOK {
+		if len(per[fn]) == 0 {
+			oks = append(oks, fn)
+		}
+	}
+	sort.Slice(oks, func(i, j int) bool { return funcKey(oks[i]) < funcKey(oks[j]) })
+	for _, fn := range oks {
+		o.ok("W3", funcKey(fn)+":unsigned-guard", p.Pos(fn.Pos()), fmt.Sprintf("%d sign test(s) against zero, each on a signed operand", signedOK[fn]))
+	}
+	o.ok("W3", "inspected", "-", fmt.Sprintf("%d tautological comparison(s) of an unsigned value with zero", n))
 }
